@@ -80,11 +80,14 @@ Definition recv_exclusive (r : recv) : bool :=
   match r with RRefMut | RValue => true | _ => false end.
 
 (** An arena method either takes [&mut self] / [self], or provably cannot reach [do_collection]. *)
+Definition cannot_collect (g : list cg_fn) (f : cg_fn) : bool :=
+  closed g [cg_id f] (reach_from g [cg_id f])
+  && disjoint (do_collection_ids g) (reach_from g [cg_id f]).
+
 Definition arena_method_ok (g : list cg_fn) (f : cg_fn) : bool :=
   negb (mem (cg_owner f) arena_owners)
   || recv_exclusive (cg_recv f)
-  || (let S := reach_from g [cg_id f] in
-      closed g [cg_id f] S && disjoint (do_collection_ids g) S).
+  || cannot_collect g f.
 
 Definition collecting_methods (g : list cg_fn) : list string :=
   map cg_name (filter (fun f => mem (cg_owner f) arena_owners
